@@ -299,6 +299,17 @@ class VElems(Val):
         return ("elems", self.buf, self.pos, self.k, self.n.key(), valkey(self.elem), self.cap)
 
 
+class VIterEnum(VIter):
+    """slice.iter().enumerate(): items are (index, &element)"""
+    __slots__ = ()
+
+    def __repr__(self):
+        return "enumerate(%r @%r)" % (self.slice, self.pos)
+
+    def key(self):
+        return ("iterenum",) + VIter.key(self)[1:]
+
+
 class VOpaque(Val):
     """unknown value (top) with a tag saying where it came from"""
     __slots__ = ("tag", "ty")
